@@ -11,7 +11,8 @@
      wdec = identity, so that the model's y.read(row, column) for row < i runs over the logged column;
      slen id = length of the logged column of wire id (the implementation's i is the padded block length, which is
      the length of every non-empty output column);  pdec = P table;  zf = Z table.
-   lines whose tag starts with "rel" are implementation-only relations: "holds". *)
+   Every other tag is answered `unknown-case`, so that the unit can be combined with others through
+   CFG["model_units"] (the driver takes the first answer that is not `unknown-case`). *)
 open Model
 open Common
 
@@ -113,7 +114,6 @@ let handle_av w d p z =
 let handle (line : string) : string =
   match String.split_on_char ' ' line with
   | [ "av"; _recipe; w; d; p; z ] -> handle_av w d p z
-  | tag :: _ when String.length tag >= 3 && String.sub tag 0 3 = "rel" -> "holds"
   | _ -> "unknown-case"
 
 let () = main handle
